@@ -40,9 +40,9 @@ CLAIMS['C01'] = dict(cat='model_checking', ref='DESIGN.md §4 C01',
 CLAIMS['C02'] = dict(cat='model_checking', ref='DESIGN.md §4 C02',
     text='SAT decides the comparison kernels for all inputs (incl. byte strings living in distinct buffers), complete scans in both directions with a symbolic halting position on '
          'every catalogue shape, seek/scan_from/scan_range with fully symbolic 64-bit bounds against a sorted-list oracle on the root leaf, concrete boundary probes on I48/I256 nodes in arbitrary valid states, and constant operation '
-         'sequences on the OLC index (all five scan forms, bounds falling off nodes and diverging inside key prefixes at and below the root, symbolic halting position, visiting-order oracle).',
+         'sequences on the OLC index (all five scan forms, bounds falling off nodes and diverging inside key prefixes at and below the root, symbolic halting position, visiting-order oracle), and all five scan forms on db/olc_db/mutex_db<key_view> over a four-level tree of byte-string keys with a list of 17 bounds held in different kinds of memory.',
     note='iterator stack replaced by the guarded fixed-capacity hook; write-only key_buffer stubbed; symbolic 64-bit bounds on trees with inner nodes exceed 40 GB of SAT memory on this tree (tier "deep", manual only - they found defect 2 earlier); '
-         'uint64 keys only at tree level. Two defects found this way were repaired (known_findings.txt).')
+         'byte-string keys at tree level with concrete bounds only (kvscan-*). Two defects found this way were repaired (known_findings.txt).')
 
 CLAIMS['C16'] = dict(cat='model_checking', ref='DESIGN.md §4 C16',
     text='The node-level and tree-level queries of C01/C02 are regenerated from the SSE4.1, assertion-enabled, SSE4.1+assertions and statistics-free builds of the real headers; SAT decides for all inputs '
